@@ -205,3 +205,218 @@ def url_variants(rng, url, name, h, w, body, other_names):
         out.append("%s%s/%d/%d/%s" % (pre, name, w, h, mutate_text(rng, body)))
     out.append(mutate_text(rng, url))
     return out
+
+
+# ================================================================ hardening round (input classes 2, 5)
+
+# lengths of runs of empty cells around every multiple of the one-character limits:
+# 20 (marker g), 26 (marker a), 36 (marker 0/1), 2*20, 2*26, 3*20, 2*36, 3*26, 5*20
+RUNS = [19, 20, 21, 22, 25, 26, 27, 35, 36, 37, 40, 41, 42, 52, 53, 60, 61, 72, 73, 74, 78, 79, 100, 101]
+RUNS_CORE = [20, 21, 36, 37, 40, 41, 72, 73]
+# boards with one side >= 36 (two-digit base-36 / width-vs-height confusions) and one side > 256
+BIG_SIDES = [(1, 36), (36, 1), (2, 37), (37, 2), (3, 40), (38, 3), (1, 73), (73, 1), (1, 300), (300, 1)]
+BIG_SIDES_MORE = [(36, 36), (4, 72), (72, 4), (1, 257), (257, 2), (5, 61)]
+# values the text format cannot carry
+OOB_HIGH = [4096, 4097, 65535, 65536, 10 ** 6, 2 ** 31]
+
+
+def run_list(rng, thorough, extra=6):
+    return list(RUNS) if thorough else RUNS_CORE + rng.sample([k for k in RUNS if k not in RUNS_CORE], extra)
+
+
+def layout(cells, w, empty, tail=None):
+    """row-major layout of `cells` on a board w wide, padded with empties (and `tail` in the last cell)"""
+    n = len(cells)
+    h = max(1, -(-n // w))
+    flat = list(cells) + [empty] * (h * w - n)
+    if tail is not None and h * w > n:
+        flat[-1] = tail
+    return h, w, [flat[i * w:(i + 1) * w] for i in range(h)]
+
+
+def run_grids(rng, empty, clue, thorough):
+    """clue, k empties, clue -- and k empties first / last -- on 1xN, Nx1 and on boards 7 / 36 / 37 wide"""
+    for k in run_list(rng, thorough):
+        mid = [clue(rng)] + [empty] * k + [clue(rng)]
+        yield layout(mid, k + 2, empty)                                   # 1 x (k+2)
+        yield layout(mid, rng.choice([7, 36, 37]), empty, rng.choice([None, clue(rng)]))
+        ends = [empty] * k + [clue(rng)] + [empty] * rng.choice([k, 20, 21, 1])
+        yield layout(ends, rng.choice([len(ends), 36, 37, 5]), empty)
+        if rng.random() < 0.4:
+            yield layout(mid, 1, empty)                                   # (k+2) x 1
+        if rng.random() < 0.4:
+            yield layout([empty] * k, k, empty)                           # all empty, exactly k cells
+        if rng.random() < 0.4:
+            two = [clue(rng)] + [empty] * k + [clue(rng)] + [empty] * rng.choice(RUNS_CORE) + [clue(rng)]
+            yield layout(two, rng.choice([len(two), 36, 37]), empty)
+
+
+def big_side_grids(rng, empty, clue, thorough):
+    for (h, w) in BIG_SIDES + (BIG_SIDES_MORE if thorough else []):
+        yield h, w, cell_grid(rng, h, w, empty, clue, 0.04)
+        yield h, w, cell_grid(rng, h, w, empty, clue, rng.choice([0.3, 0.6]))
+        if h * w <= 120 or thorough:
+            yield h, w, cell_grid(rng, h, w, empty, clue, 1.0)
+        g = cell_grid(rng, h, w, empty, clue, 0.0)
+        g[-1][-1] = clue(rng)
+        yield h, w, g
+
+
+OOB_CELLS = {
+    "nurikabe": OOB_HIGH + [-2, -7],
+    "sudoku": OOB_HIGH + [-1, -2],
+    "nurimisaki": OOB_HIGH + [-2, -9],
+    "masyu": [3, 4, 36, 4096, -1],
+    "slitherlink": [5, 6, 36, 4096, -2],
+    "yajilin": ["^4096", ">4097", "v65536", "<1000000", "^-1", ">-7"],
+}
+
+
+def oob_grids(rng, module, empty, clue):
+    """boards of the module's shape with ONE cell holding a value the text format cannot carry"""
+    for v in OOB_CELLS[module]:
+        for (h, w) in [(1, 1), (2, 3), rng.choice([(3, 3), (1, 22), (5, 4)])]:
+            g = cell_grid(rng, h, w, empty, clue, rng.choice([0.0, 0.5]))
+            g[rng.randrange(h)][rng.randrange(w)] = v
+            yield h, w, g
+
+
+def in_format(module, g):
+    """is every cell a value of the module's problem format that the URL format can carry?"""
+    for row in g:
+        for v in row:
+            if module == "yajilin":
+                if v in ("..", "??"):
+                    continue
+                if not (isinstance(v, str) and len(v) >= 2 and v[0] in "^v<>" and v[1:].isdigit() and int(v[1:]) <= 4095):
+                    return False
+                continue
+            if not isinstance(v, int) or isinstance(v, bool):
+                return False
+            lo, hi = {"nurikabe": (-1, 4095), "sudoku": (0, 4095), "nurimisaki": (-1, 4095), "masyu": (0, 2), "slitherlink": (-1, 4)}[module]
+            if not lo <= v <= hi:
+                return False
+    return True
+
+
+def grid_problems_hard(rng, module, thorough):
+    if module == "yajilin":
+        empty, clue = "..", yajilin_clue
+    else:
+        empty, clue = CLUES[module]
+    for t in run_grids(rng, empty, clue, thorough):
+        yield t
+    for t in big_side_grids(rng, empty, clue, thorough):
+        yield t
+    for t in oob_grids(rng, module, empty, clue):
+        yield t
+
+
+def big_side_partitions(rng, thorough):
+    for (h, w) in BIG_SIDES + (BIG_SIDES_MORE if thorough else []):
+        yield h, w, G.random_partition(rng, h, w)
+    for (h, w) in [(1, 37), (36, 2)]:
+        yield h, w, G.components(h, w, [])                      # every cell its own room
+        yield h, w, G.components(h, w, G.edges(h, w))           # one room
+
+
+def dominoes(n):
+    return 2, n, [[(0, x), (1, x)] for x in range(n)]
+
+
+def heyawake_run_cases(rng, thorough):
+    """(h, w, rooms, clues): many rooms, clue list with runs of -1 of the critical lengths"""
+    val = lambda: rng.choice([0, 1, 2] + BOUND)  # noqa
+    for k in run_list(rng, thorough, extra=4):
+        h, w, rooms = dominoes(k + 2)
+        yield h, w, rooms, [val()] + [-1] * k + [val()]
+        kk = rng.choice(RUNS_CORE)
+        h, w, rooms = dominoes(k + 1 + kk)
+        yield h, w, rooms, [-1] * k + [val()] + [-1] * kk
+        if rng.random() < 0.5:
+            n = k + 2
+            yield 1, n, [[(0, x)] for x in range(n)], [val()] + [-1] * k + [val()]
+        if rng.random() < 0.3:
+            h, w, rooms = dominoes(k)
+            yield h, w, rooms, [-1] * k
+
+
+def heyawake_oob_cases(rng):
+    for v in OOB_HIGH + [-2, -5]:
+        h, w = rng.choice([(1, 1), (2, 3), (3, 4)])
+        rooms = G.random_partition(rng, h, w)
+        clues = [rng.choice([-1, 0, 1, 2]) for _ in rooms]
+        clues[rng.randrange(len(clues))] = v
+        yield h, w, rooms, clues
+
+
+def compass_run_problems(rng, thorough):
+    cv = compass_value
+    clue = lambda p, w: (p // w, p % w, cv(rng), cv(rng), cv(rng), cv(rng))  # noqa
+    for k in run_list(rng, thorough):
+        for w in (k + 2, rng.choice([36, 37, 7])):
+            h = -(-(k + 2) // w)
+            yield h, w, [clue(0, w), clue(k + 1, w)]              # run of k between two clues (+ trailing run)
+        kk = rng.choice(RUNS_CORE)
+        n = k + 1 + kk
+        w = rng.choice([n, 36, 37])
+        h = -(-n // w)
+        yield h, w, [clue(k, w)]                                  # leading run k, trailing run >= kk
+        if rng.random() < 0.3:
+            yield 1, k, []                                        # no clue at all on exactly k cells
+    for (h, w) in BIG_SIDES + (BIG_SIDES_MORE if thorough else []):
+        n = h * w
+        cells = sorted(rng.sample(range(n), min(n, rng.choice([1, 2, 5]))))
+        yield h, w, [clue(p, w) for p in cells] + ([] if n - 1 in cells else [clue(n - 1, w)])
+
+
+def compass_oob_problems(rng):
+    for v in OOB_HIGH:
+        h, w = rng.choice([(1, 1), (2, 3), (3, 3)])
+        c = [rng.randrange(h), rng.randrange(w), compass_value(rng), compass_value(rng), compass_value(rng), compass_value(rng)]
+        c[rng.randint(2, 5)] = v
+        yield h, w, [tuple(c)]
+
+
+def aquarium_run_problems(rng, thorough):
+    """clue list cols + rows with a run of k blanks: boards 2 x k and k x 2"""
+    vals = [0, 1, 2, 5, 9, 15, 16, 17, 100, 255, 256, 4095]
+    for k in run_list(rng, thorough, extra=4):
+        if k < 3:
+            continue
+        blocks = G.shuffled_rooms(rng, G.random_partition(rng, 2, k))
+        yield 2, k, blocks, [-1, rng.choice(vals)], [rng.choice(vals)] + [-1] * (k - 1)
+        blocks = G.shuffled_rooms(rng, G.random_partition(rng, k, 2))
+        yield k, 2, blocks, [-1] * (k - 1) + [rng.choice(vals)], [rng.choice(vals), -1]
+        if rng.random() < 0.4:
+            yield 2, k - 2, G.random_partition(rng, 2, k - 2), [-1, -1], [-1] * (k - 2)   # all blank: exactly k
+    for (h, w) in [(1, 36), (36, 1), (37, 2), (1, 300)]:
+        yield h, w, G.random_partition(rng, h, w), [rng.choice([-1, -1, 3] + vals) for _ in range(h)], [rng.choice([-1, -1, 2] + vals) for _ in range(w)]
+
+
+def aquarium_oob_problems(rng):
+    for v in OOB_HIGH:
+        h, w = rng.choice([(1, 1), (2, 3), (3, 3)])
+        rows, cols = [rng.choice([-1, 1, 2]) for _ in range(h)], [rng.choice([-1, 0, 3]) for _ in range(w)]
+        (rows if rng.random() < 0.5 else cols)[0] = v
+        yield h, w, G.random_partition(rng, h, w), rows, cols
+
+
+def legacy_arrays(rng, thorough):
+    """(rows or flat list, empty value, marker) for util.encode_array against the combinators"""
+    vals = [0, 1, 9, 10, 15, 16, 17, 255, 256, 1000, 4095]
+    for k in run_list(rng, thorough):
+        for empty in (-1, rng.choice([None, 0, 5000, "."])):
+            marker = rng.choice(["g", "g", "h", "k", "z", "a", "1", "0"])
+            pool = [v for v in vals if v != empty]
+            cells = [rng.choice(pool)] + [empty] * k + [rng.choice(pool)] + [empty] * rng.choice([0, 1, k])
+            yield [cells], empty, marker
+            w = rng.choice([2, 5, 7, 36, 37])
+            _, _, rows = layout(cells, w, empty)
+            yield rows, empty, marker
+    for _ in range(120 if thorough else 40):
+        h, w = rng.randint(1, 9), rng.randint(1, 12)
+        empty = rng.choice([-1, -1, None, 0, 5000])
+        pool = [v for v in vals if v != empty]
+        dens = rng.choice([0.0, 0.1, 0.5, 1.0])
+        yield [[(rng.choice(pool) if rng.random() < dens else empty) for _ in range(w)] for _ in range(h)], empty, rng.choice(["g", "g", "j", "z", "a"])
